@@ -47,6 +47,10 @@ def cases(tier, rng):
                     yield {'kind': 'plain', 'term': pre + [op], 'items': xs}
                 if rng.random() < 0.25:
                     yield {'kind': 'mux', 'term': [['group_by', ['mod', 2], pre + [op]]], 'items': xs + xs}
+    # values whose hashes collide in CPython (hash(-1) == hash(-2)), big ints, equal-but-not-identical keys
+    for _ in range({'quick': 40, 'thorough': 600, 'search': 60}[tier]):
+        xs = [rng.choice([-1, -2, 0, 2 ** 61 - 1, -1, -2]) for _ in range(rng.choice([2, 3, 5, 8]))]
+        yield {'kind': 'mux', 'term': [rng.choice([['distinct', None], ['distinct', ['big_of']], ['duc', None], ['distinct', ['pair_self']]])], 'items': xs}
     for _ in range({'quick': 60, 'thorough': 1500, 'search': 100}[tier]):
         n = rng.choice([0, 1, 2, 5, 9, 20])
         xs = [rng.choice([0, 1, 2, 3, 3, 3]) for _ in range(n)]
@@ -121,7 +125,15 @@ def oracle(case, r):
         return None      # RxPY first()/last() raise on an empty plain sequence by design
     try:
         if case['kind'] == 'mux' and t and t[0][0] == 'group_by':
-            return None          # interleaving is judged through the correspondence and C02
+            go = muxprop.group_outputs(case, r)
+            for xs_, outs_ in (go or []):
+                ch, fin = pyref.ref_pipe(t[0][2], [dec(x) for x in xs_])
+                from catalog import enc
+                want_ = [enc(x) for c in ch for x in c] + [enc(x) for x in fin]
+                if outs_ != want_:
+                    return '%s on the group with items %s (interleaved with another group): real %s, list semantics %s' % (
+                        t[0][2], xs_, str(outs_)[:200], str(want_)[:200])
+            return None
         xs = [dec(x) for x in case['items']]
         ch, fin = pyref.ref_pipe(t, xs)
     except pyref.NotCovered:
